@@ -101,6 +101,11 @@ func cacheRunImpl(c corr.Case) []string {
 				p := string(corr.UnHex(t[1]))
 				class, want, ok := st.predict(p)
 				bfiBefore, _ := st.base.Stat(p)
+				lfiBefore, _ := st.layer.Stat(p)
+				var lmBefore time.Time
+				if lfiBefore != nil {
+					lmBefore = lfiBefore.ModTime()
+				}
 				got, err := afero.ReadFile(st.fs, p)
 				if !ok {
 					if err == nil {
@@ -123,6 +128,12 @@ func cacheRunImpl(c corr.Case) []string {
 					}
 					if bfiBefore != nil && !lfi.ModTime().Equal(bfiBefore.ModTime()) {
 						return "rd fail(" + class + "): the cached copy does not carry the base's modification time"
+					}
+				}
+				if class == "hit" && lfiBefore != nil {
+					// serving a cached file leaves the cached copy as it is: its age keeps counting from the copy
+					if lfi, err := st.layer.Stat(p); err == nil && !lfi.ModTime().Equal(lmBefore) {
+						return "rd fail(hit): serving the cached copy changed its modification time (the cache period must run from the copy, with the base's time)"
 					}
 				}
 				return "rd ok " + class
@@ -429,6 +440,7 @@ func c11Random(r *corr.Rand, tier string) []corr.Case {
 					fmt.Sprintf("h.write %d %s", hi, corr.Hex(payload(rr, 1+rr.Intn(5)))),
 					fmt.Sprintf("h.write %d %s", hi, corr.Hex(payload(rr, 1+rr.Intn(5)))),
 					fmt.Sprintf("h.writeat %d %s %d", hi, corr.Hex(payload(rr, 1+rr.Intn(4))), rr.Intn(14)),
+					fmt.Sprintf("h.writestring %d %s", hi, corr.Hex(payload(rr, 1+rr.Intn(4)))),
 					fmt.Sprintf("h.read %d %d", hi, 1+rr.Intn(6)),
 					fmt.Sprintf("h.readat %d %d %d", hi, 1+rr.Intn(6), rr.Intn(12)),
 					fmt.Sprintf("h.seek %d %d %d", hi, rr.Intn(10), rr.Intn(3)),
